@@ -4,8 +4,8 @@
 set -e
 cd "$(dirname "$0")/coq"
 mkdir -p gen
-if [ ! -f gen/Gen_dispatch.v ] || [ ! -f gen/Gen_utf8d.v ] || [ ! -f gen/Gen_config.v ] || [ ! -f gen/Gen_inventory.v ]; then
-  (cd .. && python3 -c "
+# always regenerate coq/gen from /repo's current sources (files are rewritten only when they change)
+(cd .. && python3 -c "
 import sys; sys.path.insert(0,'.')
 from vlib import build, runner
 from translator import run
@@ -15,7 +15,6 @@ with build.Workdir() as wd:
     sizes = {k: v for k, v in runner.hx_config(hx).items() if k.startswith('sizeof_')}
     run.regenerate(cfg, sizes)
 ")
-fi
 coq_makefile -f _CoqProject -o Makefile > /dev/null 2>&1
 MODELS="theories/Word.vo theories/PStream.vo theories/PEnc.vo theories/PMem.vo theories/PItem.vo theories/PUtf8.vo theories/PBuild.vo theories/PDrive.vo theories/SpecHead.vo theories/SpecItem.vo theories/SpecParse.vo theories/HHeap.vo theories/HItems.vo theories/HOps.vo theories/HHist.vo"
 if [ "$1" = "driver" ]; then
